@@ -4,3 +4,6 @@
         (self.spec_inv() && r is Ok) ==> (r->Ok_0.qos == (match self.qos { Some(q) => q, None => QoS::AtMostOnce }) && !r->Ok_0.dup
             && (r->Ok_0.qos != QoS::AtMostOnce ==> r->Ok_0.packet_identifier is Some)), //@ C01+C06+C11:publish_packet_carries_the_qos_the_handle_dispatches_on
         r matches Ok(p) ==> (match self.spec_id() { Some(v) => (p.packet_identifier matches Some(n) && n.0 == v), None => p.packet_identifier is None }), //@ C01+C11:publish_packet_carries_the_recorded_identifier
+        // the built packet is exactly what the options describe (every field; `spec_carried_by` is defined over the real
+        // builder in unit `opts`, uninterpreted in unit `handle`)
+        r matches Ok(p) ==> self.spec_carried_by(p), //@ C01+C06:publish_packet_carries_exactly_the_options
